@@ -94,6 +94,9 @@ ASSUMPTIONS = [
 
 CTL = ""
 PLATE_NAMES = ["pc", "pa", "pd", "pb", "pe"]  # appearance order != sorted order
+# other plate-name menus for the histories: non-ASCII characters in the LONGEST names (more utf-8 bytes than characters), and
+# names that differ only by blanks / case
+NAME_MENUS = {"plain": PLATE_NAMES, "unicode": ["Plätte_3", "Plätte_1", "Plätte_2", "P", "Plätte_药"], "lookalike": ["P1", "P1 ", " P1", "p1", "P1\t"]}
 KINDS1 = ["N", "Z", "A"]  # size-1 plate: normal / zero / NaN
 KINDS2 = ["N", "Z", "A", "H"]  # size-2 plate: + one zero and one non-zero
 OBS_FIELDS = ("treatment_names", "treatment_doses", "sample_names", "plate_names", "observations", "observation_mask")
@@ -128,7 +131,7 @@ def build_rows(layout, mask_bits):
         rs = []
         for r in range(size):
             second = (CTL, 0.0) if g % 3 == 2 else ("b", 0.5)
-            rs.append((f"s{g % 2}", PLATE_NAMES[j], (("a", 1.0 + g), second), vals[r], bool(mask_bits >> j & 1)))
+            rs.append((f"s{g % 2}", NAME_MENUS[layout.get("names", "plain")][j], (("a", 1.0 + g), second), vals[r], bool(mask_bits >> j & 1)))
             g += 1
         per_plate.append(rs)
     if layout.get("interleave"):
@@ -202,6 +205,11 @@ def plan(tier, seed):
         for plates in _layouts(3, 0):
             add(plates, False, cli=True)
 
+    # histories on screens whose plate names are non-ASCII / differ only by blanks (save, load and the commands must keep them apart)
+    for names in ("unicode", "lookalike"):
+        for plates, il, cli in (([[1, "N"], [1, "N"], [1, "N"]], False, True), ([[2, "N"], [1, "N"], [1, "Z"]], True, False),
+                                ([[1, "N"], [2, "N"]], False, True), ([[1, "N"], [1, "N"], [1, "N"], [1, "N"]], False, False)):
+            items.append({"kind": "bfs", "layout": {"plates": plates, "interleave": il, "names": names}, "cli": cli})
     # constructor / set_observed: every labelling (set partition) of N rows, chunked
     small = [lab for n in range(1, 5) for lab in _partitions(n)]
     five = list(_partitions(5))
